@@ -44,7 +44,7 @@ TRoute ==
         /\ (k \in DOMAIN published /\ ("D_default_route_split" \notin Dev \/ HasPath(me))) =>
               \A g \in DOMAIN published[k] :
                  \/ Agree(published[k][g], r)
-                 \/ ("D_client_query_in_body" \in Dev /\ (g \in {"goclient", "tsclient", "tsserver"} \/ e.gen \in {"goclient", "tsclient", "tsserver"})
+                 \/ ("D_client_query_in_body" \in Dev /\ (g \in {"tsserver"} \/ e.gen \in {"tsserver"})
                      /\ Agree([published[k][g] EXCEPT !.placement = {}], [r EXCEPT !.placement = {}]))
         /\ published' = [x \in DOMAIN published \cup {k} |->
                            IF x = k THEN (IF k \in DOMAIN published
